@@ -1401,6 +1401,36 @@ def r18(k: Kit) -> None:
     rep.floor('C05.R18', 'per-user settings reloaded', n, 8)
 
 
+def r19(k: Kit) -> None:
+    """Host-based: the application decides about the host that was verified."""
+    rep = k.rep
+    rep.rule('C05.R19', 'host-based authentication: the host name handed to '
+             'validate_host_based_user() is the name the client host key '
+             'was looked up and verified for (_validate_host_key), not the '
+             'name the request merely claims - otherwise the signature is '
+             'by a key that is not authorized for the (host, user) pair the '
+             'access decision is taken for')
+    fi = k.func('connection.SSHServerConnection.validate_host_based_auth')
+    look = [c for n, c in k.calls_named(fi, '_validate_host_key', 'self')]
+    dec = [(n, c) for n, c in k.calls_named(fi, 'validate_host_based_user')]
+    rep.floor('C05.R19', 'host key lookups', len(look), 1)
+    rep.floor('C05.R19', 'application decisions', len(dec), 1)
+    verified = {dotted(c.args[0]) for c in look if c.args}
+    for n, c in dec:
+        h = dotted(c.args[1]) if len(c.args) > 1 else None
+        rep.check(h is not None and h in verified, 'C05.R19',
+                  key(fi, 'decision is about the verified host'),
+                  f'validate_host_based_user(..., {h}, ...) and '
+                  f'_validate_host_key({h}, ...)',
+                  f'the application is asked about {h!r} while the key was '
+                  f'verified for {sorted(map(str, verified))}: with '
+                  'trust_client_host off, a client at 127.0.0.1 whose key '
+                  'is known for localhost claims '
+                  'client_host=trusted.example.com and is granted what the '
+                  'application allows that host (the mismatch is only '
+                  'logged)', k.loc(fi, n))
+
+
 def run(idx, rep, tier):
     k = Kit(idx, rep)
     rep.assumptions += NOT_DECIDED
@@ -1420,6 +1450,7 @@ def run(idx, rep, tier):
     r14(k)
     r16(k)
     r18(k)
+    r19(k)
     # C05.R15: shared rule
     from .c06 import r1 as _c06r1
     rep.rule('C05.R15', 'receive gate (= rows of C06.R1): connection-protocol messages (80+) are rejected until authentication is complete, whatever the other auth flags say - a client that never requests ssh-userauth gets no channel, request or forward served')
@@ -1446,3 +1477,22 @@ def run(idx, rep, tier):
     rep.floor('C05.R17', 'shared rows', len(_kept), 4)
     for o in rep.obligations[_before:]:
         o.rule = 'C05.R17'
+    # C05.R20: shared rule
+    from .c16 import r10 as _c16r10
+    rep.rule('C05.R20', 'webauthn-sk signatures are bound to this session (= C16.R10): the client data must start with the prefix built from the signed data (session id + request), challenge closed by its quote, origin following - a recorded signature blob does not authenticate a new session')
+    _before = len(rep.obligations)
+    _c16r10(k)
+    for o in rep.obligations[_before:]:
+        o.rule = 'C05.R20'
+    # C05.R21: shared rules
+    from .c17 import r5 as _c17r5, ca_lines_routed
+    rep.rule('C05.R21', 'authorized_keys lookup (= clauses of C17.R5 / C17.R4): every line listing the presented key is tried in file order until one whose options match, and a cert-authority line never serves as a plain key line')
+    _before = len(rep.obligations)
+    _c17r5(k)
+    _kept = [o for o in rep.obligations[_before:] if 'every entry for the key tried' in o.key]
+    del rep.obligations[_before:]
+    rep.obligations.extend(_kept)
+    rep.floor('C05.R21', 'shared rows', len(_kept), 1)
+    ca_lines_routed(k, 'C05.R21')
+    for o in rep.obligations[_before:]:
+        o.rule = 'C05.R21'
